@@ -16,6 +16,7 @@ import framework, leandrv
 from framework import Finding
 import c12_util as U
 import c12x as X
+import c12s as S3
 
 PID = "C12"
 MODULE = "MysticVerif.Props.C12"
@@ -54,6 +55,11 @@ THEOREMS = [
     "MysticVerif.C12.testpoint_decides_flip",
     "MysticVerif.C12.testpoint_on_boundary_witness",
     "MysticVerif.C12.merge_exclusive_none_iff_partial_witness",
+    "MysticVerif.C12.simplify_top_all_complete",
+    "MysticVerif.C12.simplify_top_all_sound",
+    "MysticVerif.C12.simplify_top_inside",
+    "MysticVerif.C12.simplify_top_single_member",
+    "MysticVerif.C12.single_case_not_whole_witness",
 ]
 
 KF_OPPOSITE = "simplify/absval-merge-inclusive/opposite-bounds-same-text"
@@ -62,6 +68,7 @@ KF_REDUNDANT = "solve/redundant-float-equations/rank-inflated"
 KF_CANCEL = "simplify/test-point-in-binary64/cancelling-huge-coefficients"
 KF_RESTORE = "symbolic/restore-names/more-than-ten-named-variables/index-prefix"
 KF_TRIANGULAR = "solve/redundant-float-equations/not-back-substituted"
+KF_FLAT = "simplify/flat-marker-collision/parenthesised-text-repeated-inside-divisor"
 CMP_TEXT = ["<", "<=", ">", ">=", "=", "==", "!="]
 TOL = Fr(1, 10 ** 9)
 MARGIN = Fr(1, 10 ** 6)
@@ -317,6 +324,42 @@ def opposite_pairs(text):
     return out
 
 
+def enclosed_chunks(eq):
+    """twin of symbolic._enclosed (l.306-323): the text cut after the close of every top-level parenthesised group; a chunk is
+    the text since the previous cut, i.e. what precedes the group plus the group"""
+    res = []
+    it = iter(re.findall(r"[^\)]*\)", eq))
+    n, r = 0, ""
+    for i in it:
+        r += i; n += i.count("(") - 1
+        if n <= 0:
+            break
+    if r:
+        res.append(r)
+    rest = "".join(it)
+    if rest:
+        res.extend(enclosed_chunks(rest))
+    return res
+
+
+def flat_collision(text):
+    """F59: flat() (symbolic.py l.333-352) puts the marker $k$ into the k-th chunk with `equation.replace(chunk, ...)`, i.e. at
+    EVERY place where the chunk's text occurs in the line; when a side of a relation begins with a parenthesised text and that
+    text occurs again inside a later parenthesised divisor (`(-2)/((-2)*x0)`), the divisor no longer matches its own marker,
+    denominator() does not find it, its zero is not solved and no sign cases are made.  Each side of the comparator is
+    flattened separately (denominator(), l.374-377), with the blanks next to the comparator."""
+    for line in U.lines_of(text):
+        parts = U.CMP_RE.split(line)
+        for side in ((parts[0], parts[2]) if len(parts) == 3 else (line,)):
+            ch = enclosed_chunks(side)
+            for a, e in enumerate(ch):
+                for b in range(a + 1, len(ch)):
+                    k = ch[b].find("(")
+                    if e in ch[b] and k >= 0 and ch[b][:k].rstrip().endswith("/"):
+                        return True
+    return False
+
+
 def merge_incl_abs(tl):
     """python mirror of Model/Symbolic.lean mergeIncl on (e, cmp) pairs (cross-checked in the merge stream)"""
     strict = ("lt", "gt"); ineq = ("lt", "le", "gt", "ge")
@@ -439,26 +482,35 @@ class CallTimeout(Exception):
 
 
 def guarded(fn, *a, **kw):
-    """call into mystic with stdout swallowed and a wall-clock limit (a pathological permutation fallback must not
-    stall the check: counted as 'raises', never as a verdict)"""
+    """call into mystic with stdout swallowed and a limit on the CPU time of the call (a pathological permutation fallback
+    must not stall the check: counted as 'raises', never as a verdict).  The limit is CPU time of this process
+    (ITIMER_PROF), not wall-clock time: on a loaded machine a 0.1 s call can take many seconds of wall-clock time.  mystic's
+    solve() has a bare `except:` (_symbolic.py l.698) that would swallow the exception raised by the signal handler and carry on
+    with its _solve_nonlinear fallback - a result produced after the alarm fired is therefore never used: CallTimeout is
+    raised again after the call returns."""
     import signal
+    fired = [False]
 
     def onalarm(sig, frm):
+        fired[0] = True
         raise CallTimeout()
     import resource
-    old = signal.signal(signal.SIGALRM, onalarm)
+    old = signal.signal(signal.SIGPROF, onalarm)
     soft, hard = resource.getrlimit(resource.RLIMIT_AS)
     lim = 3 * 2 ** 30
-    signal.alarm(kw.pop("_limit", 25))
+    signal.setitimer(signal.ITIMER_PROF, float(kw.pop("_limit", 25)))
     try:
         # soft address-space limit for the duration of the call only (the Lean driver subprocess must not inherit it)
         resource.setrlimit(resource.RLIMIT_AS, (lim if hard == resource.RLIM_INFINITY else min(lim, hard), hard))
         with contextlib.redirect_stdout(io.StringIO()):
-            return fn(*a, **kw)
+            out = fn(*a, **kw)
     finally:
+        signal.setitimer(signal.ITIMER_PROF, 0)
         resource.setrlimit(resource.RLIMIT_AS, (soft, hard))
-        signal.alarm(0)
-        signal.signal(signal.SIGALRM, old)
+        signal.signal(signal.SIGPROF, old)
+    if fired[0]:
+        raise CallTimeout()
+    return out
 
 
 def env_of(names, pt):
@@ -825,7 +877,7 @@ def isolated_vars(out_items, n):
 def post_solve(rec, replies, rng, hist, findings):
     g = rec["gen"]; names = rec["names"]; n = len(names)
     exact = rec["exact"]
-    case = {"stream": "solve", "id": rec["id"], "call": "solve(%r, variables=%r%s)" % (g["text"], g["variables"], "".join(", %s=%r" % kv for kv in g["kw"].items())),
+    case = {"stream": "solve", "id": rec["id"], "call": g.get("call") or "solve(%r, variables=%r%s)" % (g["text"], g["variables"], "".join(", %s=%r" % kv for kv in g["kw"].items())),
             "returned": rec["out"], "exact_regime": exact, "requests": rec["lines"]}
     tag = "solve:%s" % ("exact" if exact else "toleranced")
     hist[tag] = hist.get(tag, 0) + 1
@@ -914,9 +966,7 @@ def gen_number(rng, kind):
     return rng.choice([1e300, -1e300, 5e-324, -2.5e-310, 1e-5, 123456789.123456789, -0.0, 1e22, 1e23, 0.1, 1 / 3.0])
 
 
-def prep_matrix(rng, hist, stream_id):
-    import numpy as np
-    from mystic import symbolic as S
+def gen_matrix_case(rng):
     n = rng.choice([1, 2, 3, 4, 6, 11, 12])
     variables, names = gen_names(rng, min(n, 8)) if n <= 8 else ("x", ["x%d" % i for i in range(n)])
     n = len(names)
@@ -932,8 +982,13 @@ def prep_matrix(rng, hist, stream_id):
     A = [[num() for _ in range(n)] for _ in range(me)]; b = [num() for _ in range(me)]
     G = [[num() for _ in range(n)] for _ in range(mi)]; h = [num() for _ in range(mi)]
     form = rng.choice(["list", "list", "numpy", "flat1", "nestb"])
-    args = {}
     kwv = None if (variables == "x" and rng.random() < 0.5) else variables
+    return {"names": names, "variables": variables, "kind": kind, "A": A, "b": b, "G": G, "h": h, "form": form, "kwv": kwv}
+
+
+def matrix_args(g):
+    import numpy as np
+    form, kind = g["form"], g["kind"]
 
     def wrap(M, v):
         if form == "numpy" and kind != "int":
@@ -943,15 +998,29 @@ def prep_matrix(rng, hist, stream_id):
         if form == "nestb":
             return [list(r) for r in M], [list(v)]
         return [list(r) for r in M], list(v)
-    if me:
-        args["A"], args["b"] = wrap(A, b)
-    if mi:
-        args["G"], args["h"] = wrap(G, h)
+    args = {}
+    if g["A"]:
+        args["A"], args["b"] = wrap(g["A"], g["b"])
+    if g["G"]:
+        args["G"], args["h"] = wrap(g["G"], g["h"])
+    return args
+
+
+def prep_matrix(rng, hist, stream_id):
+    from mystic import symbolic as S
+    g = gen_matrix_case(rng)
+    args = matrix_args(g)
     try:
-        out = guarded(S.linear_symbolic, variables=kwv, **args)
+        out = guarded(S.linear_symbolic, variables=g["kwv"], **args)
     except Exception as exc:
         hist["matrix:raises:" + type(exc).__name__] = hist.get("matrix:raises:" + type(exc).__name__, 0) + 1
         return None
+    return build_matrix(g, args, out, rng, stream_id)
+
+
+def build_matrix(g, args, out, rng, stream_id):
+    """the record of ONE call `linear_symbolic(**args)` that returned `out`"""
+    names = g["names"]; A, b, G, h = g["A"], g["b"], g["G"], g["h"]; form = g["form"]; kind = g["kind"]; kwv = g["kwv"]
     rec = {"stream": "matrix", "id": stream_id, "names": names, "out": out, "A": A, "b": b, "G": G, "h": h,
            "call": "linear_symbolic(%s, variables=%r)  [argument form %s]" % (", ".join("%s=%r" % (k, (v.tolist() if hasattr(v, "tolist") else v)) for k, v in args.items()), kwv, form),
            "lines": [], "form": form, "kind": kind}
@@ -1014,9 +1083,7 @@ def post_matrix(rec, replies, rng, hist, findings):
     return len(A) + len(G) >= 2
 
 
-def prep_bounds(rng, hist, stream_id):
-    import numpy as np
-    from mystic import symbolic as S
+def gen_bounds_case(rng):
     n = rng.choice([1, 2, 3, 4, 5, 12])
     variables, names = gen_names(rng, min(n, 8)) if n <= 8 else ("x", ["x%d" % i for i in range(n)])
     n = len(names)
@@ -1034,11 +1101,23 @@ def prep_bounds(rng, hist, stream_id):
         u = c if rng.random() < 0.75 else rng.choice([None, math.inf])
         lo.append(l); hi.append(u)
     kwv = None if (variables == "x" and rng.random() < 0.5) else variables
+    return {"names": names, "variables": variables, "lo": lo, "hi": hi, "kwv": kwv}
+
+
+def prep_bounds(rng, hist, stream_id):
+    from mystic import symbolic as S
+    g = gen_bounds_case(rng)
     try:
-        out = guarded(S.symbolic_bounds, list(lo), list(hi), variables=kwv)
+        out = guarded(S.symbolic_bounds, list(g["lo"]), list(g["hi"]), variables=g["kwv"])
     except Exception as exc:
         hist["bounds:raises:" + type(exc).__name__] = hist.get("bounds:raises:" + type(exc).__name__, 0) + 1
         return None
+    return build_bounds(g, out, rng, stream_id)
+
+
+def build_bounds(g, out, rng, stream_id):
+    """the record of ONE call `symbolic_bounds(lo, hi)` that returned `out`"""
+    names = g["names"]; lo, hi, kwv = g["lo"], g["hi"], g["kwv"]
     rec = {"stream": "bounds", "id": stream_id, "names": names, "out": out, "lo": lo, "hi": hi,
            "call": "symbolic_bounds(%r, %r, variables=%r)" % (lo, hi, kwv), "lines": []}
     try:
@@ -1197,12 +1276,11 @@ def prep_simplifyx(rng, hist, stream_id):
     import random as _random
     from mystic import symbolic as S
     g = gen_simplifyx_case(rng)
-    names = g["names"]
     kind = g["kind"]
-    in_lines = U.lines_of(g["text"])
-    ctx = X.Ctx(names)
     try:
-        in_sparse = [X.translate_x(l, ctx) for l in in_lines]
+        ctx = X.Ctx(g["names"])
+        for l in U.lines_of(g["text"]):
+            X.translate_x(l, ctx)
     except U.OutsideClass as e:
         raise HarnessBug("generated line outside the class: %r (%s)" % (g["text"], e))
     seed = common.seed_mystic(rng)
@@ -1216,16 +1294,32 @@ def prep_simplifyx(rng, hist, stream_id):
         key = "%s:raises:%s" % (tag, type(exc).__name__)
         hist[key] = hist.get(key, 0) + 1
         return None
-    cases_text = _as_cases(out)
-    rec = {"stream": "simplifyx", "id": stream_id, "gen": g, "in_lines": in_lines, "out": cases_text, "names": names, "lines": [],
-           "ctx": ctx, "tag": tag, "raw_none": out is not None and not isinstance(out, str) and any(c is None for c in out)}
+    single = None
     if g["mode"] == "all-false":
         import random, numpy
         random.seed(seed); numpy.random.seed(seed)
         try:
-            rec["single"] = ("ok", guarded(S.simplify, g["text"], variables=g["variables"], all=False, **kw))
+            single = ("ok", guarded(S.simplify, g["text"], variables=g["variables"], all=False, **kw))
         except Exception as exc:
-            rec["single"] = ("raises", type(exc).__name__)
+            single = ("raises", type(exc).__name__)
+    return build_simplifyx(g, out, rng, stream_id, tag, single)
+
+
+def build_simplifyx(g, out, rng, stream_id, tag, single=None, stream="simplifyx"):
+    """the record of ONE call `simplify(g.text, all=True, ...)` that returned `out`: translation of input and returned
+    text (validated against the interpreter), the validator request"""
+    names = g["names"]
+    in_lines = U.lines_of(g["text"])
+    ctx = X.Ctx(names)
+    try:
+        in_sparse = [X.translate_x(l, ctx) for l in in_lines]
+    except U.OutsideClass as e:
+        raise HarnessBug("generated line outside the class: %r (%s)" % (g["text"], e))
+    cases_text = _as_cases(out)
+    rec = {"stream": stream, "id": stream_id, "gen": g, "in_lines": in_lines, "out": cases_text, "names": names, "lines": [],
+           "ctx": ctx, "tag": tag, "raw_none": out is not None and not isinstance(out, str) and any(c is None for c in out)}
+    if single is not None:
+        rec["single"] = single
     rec["exact"] = exact_regime(g["kinds"], g["text"], cases_text)
     try:
         rec["out_tls"] = [[U.TextLine(l) for l in U.lines_of(c)] for c in cases_text]
@@ -1261,7 +1355,7 @@ def prep_simplifyx(rng, hist, stream_id):
 def case_of_x(rec, extra=None):
     g = rec["gen"]
     c = {"stream": rec["stream"], "id": rec["id"], "kind": g["kind"], "mode": g["mode"],
-         "call": "simplify(%r, variables=%r, all=True%s)" % (g["text"], g["variables"], "".join(", %s=%r" % kv for kv in g["kw"].items())),
+         "call": g.get("call") or "simplify(%r, variables=%r, all=True%s)" % (g["text"], g["variables"], "".join(", %s=%r" % kv for kv in g["kw"].items())),
          "returned": rec["out"], "exact_regime": rec.get("exact"), "requests": rec["lines"]}
     if extra:
         c.update(extra)
@@ -1302,16 +1396,27 @@ def post_simplifyx(rec, replies, rng, hist, findings):
     if empty_lines(rec["out"]) > 0:
         hist["simplifyx:known-class:" + KF_EMPTY] = hist.get("simplifyx:known-class:" + KF_EMPTY, 0) + 1
         return False
+    if flat_collision(g.get("raw_text", g["text"])):
+        # F59: the divisor is not recognised, no sign cases are made. Strongest variant still true inside the class: the isolation
+        # algebra is exact - every boundary of the returned lines is a boundary of the input's sign-case expansion
+        hist["simplifyx:known-class:" + KF_FLAT] = hist.get("simplifyx:known-class:" + KF_FLAT, 0) + 1
+        pt, a, b, _ = separating_point(in_side, rec["out_tls"], [ln for c in X.expand_x(rec["in_items"], rec["N"]) for ln in c], names, rng, exact, budget=40)
+        if pt is not None:
+            findings.append(Finding("monitor", KF_FLAT, "input holds=%r, returned text holds=%r at %s=%s" % (a, b, names, pt_json(pt)),
+                                    case_of_x(rec, {"point": pt_json(pt)})))
+        if exact and "out_items" in rec and not boundaries(rec["out_items"]) <= boundaries(X.expand_x(rec["in_items"], rec["N"])):
+            findings.append(Finding("monitor", "simplify/known-class/other-defect",
+                                    "beyond the known defect (%s): a returned line has a boundary that is no boundary of the input" % KF_FLAT, case_of_x(rec)))
+        return False
     # ---- monitor: all=False returns one of the cases of all=True
     if "single" in rec:
         st, single = rec["single"]
         hist["simplifyx:all-false:%s" % (st if st != "ok" else ("None" if single is None else "text"))] = \
             hist.get("simplifyx:all-false:%s" % (st if st != "ok" else ("None" if single is None else "text")), 0) + 1
         if st == "ok":
-            want = [frozenset(U.lines_of(c)) for c in rec["out"]]
-            got = None if single is None else frozenset(U.lines_of(single))
+            want = rec["out"]
             # (all=False first picks ONE abs / sign case at random; when that case has no solution the answer is None)
-            if (got is None and want and not rec["raw_none"]) or (got is not None and got not in want):
+            if (single is None and want and not rec["raw_none"]) or (single is not None and not one_of_cases(single, want, names, rng)):
                 findings.append(Finding("monitor", "simplify/all-false/not-one-of-the-cases",
                                         "simplify(all=False) returned %r, which is none of the cases returned with all=True" % (single,), case_of_x(rec, {"single": single})))
     # ---- monitor: independent interpreter at sample points
@@ -1485,6 +1590,12 @@ def prep_solvex(rng, hist, stream_id):
         key = "solvex:%s:raises:%s" % (cls, type(exc).__name__)
         hist[key] = hist.get(key, 0) + 1
         return None
+    return build_solvex(g, out, in_lines, in_items, in_tls, rng, hist, stream_id)
+
+
+def build_solvex(g, out, in_lines, in_items, in_tls, rng, hist, stream_id):
+    """the record of ONE call `solve(g.text, ...)` that returned `out`"""
+    names = g["names"]; n = len(names); cls = g["cls"]
     fi = [U.eq_form(it) for it in in_items]
     rk = U.rank([f[1:] for f in fi]); rka = U.rank([f[1:] + [f[0]] for f in fi])
     consistent = rk == rka
@@ -1524,7 +1635,7 @@ def prep_solvex(rng, hist, stream_id):
 def post_solvex(rec, replies, rng, hist, findings):
     g = rec["gen"]; names = rec["names"]; n = len(names); cls = g["cls"]
     case = {"stream": "solvex", "id": rec["id"], "class": cls,
-            "call": "solve(%r, variables=%r%s)" % (g["text"], g["variables"], "".join(", %s=%r" % kv for kv in g["kw"].items())),
+            "call": g.get("call") or "solve(%r, variables=%r%s)" % (g["text"], g["variables"], "".join(", %s=%r" % kv for kv in g["kw"].items())),
             "returned": rec["out"], "requests": rec["lines"]}
     if "foreign" in rec:
         findings.append(Finding("monitor", KF_RESTORE, "the returned text mentions %r, which is not among the variables %r" % (rec["foreign"], names), case))
@@ -1559,6 +1670,455 @@ def post_solvex(rec, replies, rng, hist, findings):
     for f in findings[before:]:
         f["case"]["stream"] = "solvex"; f["case"]["class"] = cls
     return nt
+
+
+# ------------------------------------------------------------------ stream: seq (third layer: CALL SEQUENCES in one process; the top
+# level of simplify against Model/SymbolicTop.lean `simplifyTop`)
+KNOWN_KEYS = None
+
+
+def _known_keys():
+    global KNOWN_KEYS
+    if KNOWN_KEYS is None:
+        KNOWN_KEYS = {KF_OPPOSITE, KF_EMPTY, KF_REDUNDANT, KF_CANCEL, KF_RESTORE, KF_TRIANGULAR, KF_FLAT}
+    return KNOWN_KEYS
+
+
+def gen_seq(rng):
+    """a program of calls outside the known-finding classes (opposite bounds with equal sides, abs sign conditions that meet
+    an opposite bound: F16) and inside the translator's class"""
+    for _ in range(10):
+        g = S3.gen_seq_case(rng, gen_rational_line)
+        if g["family"] in ("matrix", "bounds", "pipe"):
+            return g
+        ok = True
+        for st in g["steps"]:
+            st["etext"] = S3.substitute("\n".join(st["lines"]), st["locals"])
+            if opposite_pairs(st["etext"]) or abs_condition_pairs(st["etext"]):
+                ok = False; break
+            try:
+                ctx = X.Ctx(g["names"])
+                for l in U.lines_of(st["etext"]):
+                    X.translate_x(l, ctx)
+            except (U.OutsideClass, ZeroDivisionError):
+                ok = False; break
+        if ok:
+            return g
+    return None
+
+
+def call_text(st, kw):
+    shown = dict(kw)
+    if "rand" in shown:
+        shown["rand"] = "<seeded random.Random(..).random>"
+    return "%s(%r, variables=%r%s)" % (st["fn"], st["text"], st["variables"], "".join(", %s=%r" % kv for kv in sorted(shown.items())))
+
+
+def prep_seq(rng, hist, stream_id):
+    import random, numpy, copy
+    from mystic import symbolic as S
+    g = gen_seq(rng)
+    if g is None:
+        hist["seq:no-program"] = hist.get("seq:no-program", 0) + 1
+        return None
+    fam = g["family"]
+    seed = common.seed_mystic(rng)
+    rec = {"stream": "seq", "id": stream_id, "gen": g, "family": fam, "subs": [], "lines": [], "out": []}
+    calls = []
+    if fam in ("matrix", "bounds"):
+        return prep_seq_tables(rng, hist, stream_id, rec, S)
+    if fam == "pipe":
+        g = gen_pipe(rng, S, rec, stream_id)
+        if g is None:
+            hist["seq:pipe:no-text"] = hist.get("seq:pipe:no-text", 0) + 1
+            return None
+        rec["gen"] = g
+        calls = [rec["subs"][0]["call"]]
+    names = g["names"]
+    tr = S3.TopTrace(S)
+    for j, st in enumerate(g["steps"]):
+        kw = dict(st["kw"])
+        if kw.get("rand") == "seeded":
+            kw["rand"] = random.Random(seed + 100 + j).random
+        variables = st["variables"]
+        pristine = None
+        if st["share"] is not None:
+            sh = st["share"]
+            variables = sh["variables"]
+            if sh["target"] is not None:
+                kw["target"] = sh["target"]
+            kw["locals"] = sh["locals"]
+            pristine = copy.deepcopy((sh["variables"], sh["target"], sh["locals"]))
+        elif st["locals"]:
+            kw["locals"] = dict(st["locals"])
+        ctext = call_text(st, kw)
+        calls.append(ctext)
+        random.seed(seed + j); numpy.random.seed(seed + j)
+        fn = S.simplify if st["fn"] == "simplify" else S.solve
+        tr.reset()
+        sub = {"j": j + len(g.get("pre", [])), "sj": j, "fn": st["fn"], "call": ctext, "calls": list(calls), "rel": g.get("rel0") if (j == 0 and g.get("rel0")) else S3.relation(g["steps"], j), "lines": []}
+        try:
+            with tr:
+                out = guarded(fn, st["text"], variables=variables, _limit=6, **kw)
+        except Exception as exc:
+            sub["what"] = "raises"; sub["exc"] = type(exc).__name__
+            rec["subs"].append(sub)
+            continue
+        if pristine is not None and pristine != (st["share"]["variables"], st["share"]["target"], st["share"]["locals"]):
+            hist["seq:objects:argument-edited-in-place"] = hist.get("seq:objects:argument-edited-in-place", 0) + 1
+        sub["out"] = out
+        if st["locals"] and st["fn"] == "simplify":
+            # (a constant given through locals= that is still spelled out in the returned text has the value of THIS call)
+            sb = lambda c: c if c is None else S3.substitute(c, st["locals"])
+            out = sb(out) if (out is None or isinstance(out, str)) else tuple(sb(c) for c in out)
+        sub["out_eff"] = out
+        nk = g["nk"]
+        gs = {"kind": g["kind"], "mode": None, "variables": st["variables"], "names": names, "text": st["etext"],
+              "kinds": [nk] * len(st["lines"]), "kw": st["kw"], "call": ctext, "cls": "seq", "kind_": nk, "redundant": False,
+              "raw_text": st["text"]}
+        if st["fn"] == "solve":
+            gs["kind"] = nk          # (post_solve reads g["kind"] as the number kind)
+            in_lines = U.lines_of(st["etext"])
+            in_items = [U.translate_line(l, names) for l in in_lines]
+            in_tls = check_translation(in_lines, in_items, names, rng)
+            sub["what"] = "solve"
+            sub["rec"] = build_solvex(gs, out, in_lines, in_items, in_tls, rng, hist, stream_id)
+            sub["lines"] = list(sub["rec"]["lines"])
+        else:
+            all_flag = bool(st["kw"].get("all", False))
+            if all_flag:
+                sub["what"] = "simplify-all"
+                sub["rec"] = build_simplifyx(gs, out, rng, stream_id, "seq:%s:%s" % (fam, g["kind"]), stream="seq")
+                sub["lines"] = list(sub["rec"]["lines"])
+            else:
+                sub["what"] = "simplify-one"
+                sub["gs"] = gs
+            # ---- the top level against the model: what absval / _simplify returned in THIS call
+            line, want, note = S3.top_request(tr, all_flag, sub["out"])
+            fwd = [(dict(k), a) for (_, a, k, _) in tr.parts]
+            expect = dict(kw, variables=variables, target=kw.get("target"))
+            sub["forwarded"] = all(a == () and k == expect for k, a in fwd)
+            sub["nparts"] = len(tr.parts)
+            if line is None:
+                sub["top_note"] = note
+            else:
+                sub["top_idx"] = len(sub["lines"]); sub["top_want"] = want
+                sub["lines"].append(line)
+        rec["subs"].append(sub)
+    for sub in rec["subs"]:
+        sub["off"] = len(rec["lines"])
+        rec["lines"].extend(sub["lines"])
+    rec["out"] = [sub.get("out") for sub in rec["subs"]]
+    return rec
+
+
+def gen_pipe(rng, S, rec, stream_id):
+    """the text linear_symbolic / symbolic_bounds produce, handed on to simplify (small exact numbers): first the producing
+    call (sub-record 0, checked as in the matrix / bounds streams), then 1-2 simplify calls on its text"""
+    n = rng.choice([2, 3, 3, 4])
+    names = ["x%d" % i for i in range(n)]
+    nk = rng.choice(["int", "dyadic"])
+    num = (lambda: rng.choice([-5, -3, -2, -1, 1, 1, 2, 3, 4, 7])) if nk == "int" else (lambda: rng.choice([-4.5, -2.0, -1.0, -0.5, 0.25, 1.0, 1.0, 1.5, 2.0, 3.0]))
+    sub = {"j": 0, "lines": []}
+    if rng.random() < 0.75:
+        me = rng.choice([0, 0, 1]); mi = rng.choice([1, 1, 2, 3])
+        zero = 0 if nk == "int" else 0.0
+        row = lambda: [num() if rng.random() < 0.85 else zero for _ in range(n)]
+        A = [row() for _ in range(me)]; G = [row() for _ in range(mi)]
+        for r in A + G:
+            if all(v == 0 for v in r):
+                r[rng.randrange(n)] = num()
+        gm = {"names": names, "variables": "x", "kind": "int" if nk == "int" else "float", "A": A, "b": [num() for _ in range(me)],
+              "G": G, "h": [num() for _ in range(mi)], "form": rng.choice(["list", "list", "numpy"]), "kwv": rng.choice([None, "x", list(names)])}
+        args = matrix_args(gm)
+        try:
+            out = guarded(S.linear_symbolic, variables=gm["kwv"], **args)
+        except Exception:
+            return None
+        sub.update(what="matrix", fn="linear_symbolic", out=out, rec=build_matrix(gm, args, out, rng, stream_id))
+    else:
+        lo = [num() if rng.random() < 0.7 else None for _ in range(n)]
+        hi = [(l if l is not None else num()) + abs(num()) if rng.random() < 0.7 else None for l in lo]
+        gb = {"names": names, "variables": "x", "lo": lo, "hi": hi, "kwv": rng.choice([None, "x", list(names)])}
+        try:
+            out = guarded(S.symbolic_bounds, list(lo), list(hi), variables=gb["kwv"])
+        except Exception:
+            return None
+        sub.update(what="bounds", fn="symbolic_bounds", out=out, rec=build_bounds(gb, out, rng, stream_id))
+    if not isinstance(out, str) or not out.strip():
+        return None
+    sub["call"] = sub["rec"]["call"]; sub["calls"] = [sub["call"]]; sub["rel"] = "first"; sub["lines"] = list(sub["rec"]["lines"])
+    rec["subs"].append(sub)
+    lines = U.lines_of(out)
+    try:
+        ctx = X.Ctx(names)
+        for l in lines:
+            X.translate_x(l, ctx)
+    except (U.OutsideClass, ZeroDivisionError):
+        return None
+    if opposite_pairs(out):
+        return None
+    k = rng.choice([1, 1, 2])
+    plan = S3.all_plan(rng, max(k, 2))[-k:]
+    steps = []
+    for j in range(k):
+        st = S3.simplify_step(lines, S3.spell_variables(rng, names), S3.gen_kw(rng, names, plan[j], sign_free=True), "same-text", text=out)
+        st["etext"] = "\n".join(lines)
+        steps.append(st)
+    return {"family": "pipe", "kind": "pipe", "nk": nk, "names": names, "steps": steps, "pre": [sub], "rel0": "same:after-" + sub["fn"]}
+
+
+def prep_seq_tables(rng, hist, stream_id, rec, S):
+    """linear_symbolic / symbolic_bounds called several times: the same shapes with other numbers, the same numbers with another
+    `variables` spelling or argument form"""
+    fam = rec["family"]
+    k = rng.choice([2, 3, 3])
+    calls = []
+    if fam == "matrix":
+        g = gen_matrix_case(rng)
+        for j in range(k):
+            if j:
+                g = dict(g, A=[list(r) for r in g["A"]], b=list(g["b"]), G=[list(r) for r in g["G"]], h=list(g["h"]))
+                m = rng.random()
+                which = rng.choice([w for w in ("A", "b", "G", "h") if g[w]])
+                if m < 0.6:
+                    tgt = g[which]
+                    if which in ("A", "G"):
+                        tgt = tgt[rng.randrange(len(tgt))]
+                    tgt[rng.randrange(len(tgt))] = gen_number(rng, rng.choice(["int", "float"]) if g["kind"] != "int" else "int")
+                    rel = "same-shape:" + which
+                elif m < 0.8:
+                    g["form"] = rng.choice(["list", "numpy", "flat1", "nestb"]); rel = "same-numbers:form"
+                else:
+                    dense = g["names"] == ["x%d" % i for i in range(len(g["names"]))]
+                    g["kwv"] = rng.choice([None, "x", list(g["names"])]) if dense else list(g["names"]); rel = "same-numbers:variables"
+            else:
+                rel = "first"
+            args = matrix_args(g)
+            sub = {"j": j, "fn": "linear_symbolic", "rel": rel, "lines": []}
+            try:
+                out = guarded(S.linear_symbolic, variables=g["kwv"], **args)
+            except Exception as exc:
+                sub["what"] = "raises"; sub["exc"] = type(exc).__name__; sub["call"] = "linear_symbolic(...)"; sub["calls"] = list(calls)
+                rec["subs"].append(sub); continue
+            sub["what"] = "matrix"; sub["out"] = out
+            sub["rec"] = build_matrix(g, args, out, rng, stream_id)
+            sub["call"] = sub["rec"]["call"]; calls.append(sub["call"]); sub["calls"] = list(calls)
+            sub["lines"] = list(sub["rec"]["lines"])
+            rec["subs"].append(sub)
+    else:
+        g = gen_bounds_case(rng)
+        for j in range(k):
+            if j:
+                g = dict(g, lo=list(g["lo"]), hi=list(g["hi"]))
+                m = rng.random()
+                if m < 0.7:
+                    i = rng.randrange(len(g["lo"]))
+                    v = gen_number(rng, rng.choice(["int", "float"]))
+                    side = rng.choice(["lo", "hi"])
+                    other = g["hi" if side == "lo" else "lo"][i]
+                    fin = other is not None and not math.isinf(other)
+                    if rng.random() < 0.15:
+                        v = rng.choice([None, -math.inf if side == "lo" else math.inf])
+                    elif fin and ((side == "lo" and v > other) or (side == "hi" and v < other)):
+                        v = other
+                    g[side][i] = v
+                    rel = "same-length:" + side
+                else:
+                    dense = g["names"] == ["x%d" % i for i in range(len(g["names"]))]
+                    g["kwv"] = rng.choice([None, "x", list(g["names"])]) if dense else g["kwv"]; rel = "same-numbers:variables"
+            else:
+                rel = "first"
+            sub = {"j": j, "fn": "symbolic_bounds", "rel": rel, "lines": []}
+            try:
+                out = guarded(S.symbolic_bounds, list(g["lo"]), list(g["hi"]), variables=g["kwv"])
+            except Exception as exc:
+                sub["what"] = "raises"; sub["exc"] = type(exc).__name__; sub["call"] = "symbolic_bounds(...)"; sub["calls"] = list(calls)
+                rec["subs"].append(sub); continue
+            sub["what"] = "bounds"; sub["out"] = out
+            sub["rec"] = build_bounds(g, out, rng, stream_id)
+            sub["call"] = sub["rec"]["call"]; calls.append(sub["call"]); sub["calls"] = list(calls)
+            sub["lines"] = list(sub["rec"]["lines"])
+            rec["subs"].append(sub)
+    for sub in rec["subs"]:
+        sub["off"] = len(rec["lines"])
+        rec["lines"].extend(sub["lines"])
+    rec["out"] = [sub.get("out") for sub in rec["subs"]]
+    return rec
+
+
+def one_of_cases(single, want_texts, names, rng):
+    """is the text `single` one of the cases `want_texts` - literally, or (the property speaks about points) as a set of points:
+    equal canonical forms when both are linear, else agreement with one case at sample points"""
+    if not isinstance(single, str):
+        return False
+    got = frozenset(U.lines_of(single))
+    if got in [frozenset(U.lines_of(c)) for c in want_texts]:
+        return True
+    try:
+        ctx = X.Ctx(names)
+        sp = [[X.translate_x(l, ctx) for l in U.lines_of(c)] for c in [single] + list(want_texts)]
+        N = ctx.N
+        its = [[X.plain_line(X.densify(it, N)) for it in c] for c in sp]
+        if not any(it is None for c in its for it in c):
+            cs = [U.canon_sys(c) for c in its]
+            exact = not any(looks_rounded(c) for c in [single] + list(want_texts))
+            return any(U.same_set(cs[0], c, 0 if exact else TOL) for c in cs[1:])
+    except U.OutsideClass:
+        pass
+    try:
+        tl = [[U.TextLine(l) for l in U.lines_of(c)] for c in [single] + list(want_texts)]
+    except U.OutsideClass:
+        return False
+    n = len(names)
+    pts = U.corner_points(n) + U.random_points(n, rng, 40)
+    vals = [[U.sat_system(c, env_of(names, pt)) for pt in pts] for c in tl]
+    return any(v == vals[0] for v in vals[1:])
+
+
+def post_single(sub, g, rng, hist, findings, peers):
+    """simplify without all=True returned ONE case: it must lie inside the input (its sign conditions make it a part of the
+    solution set) and be one of the cases an all=True call on the same text returns"""
+    gs = sub["gs"]; names = gs["names"]; n = len(names); out = sub["out_eff"]
+    case = {"stream": "seq", "kind": gs["kind"], "call": sub["call"], "returned": sub["out"]}
+    cases_text = _as_cases(out)
+    if empty_lines(cases_text) > 0:
+        hist["seq:known-class:" + KF_EMPTY] = hist.get("seq:known-class:" + KF_EMPTY, 0) + 1
+        return
+    hist["seq:simplify-one:%s" % ("None" if out is None else ("tuple" if isinstance(out, tuple) else "text"))] = \
+        hist.get("seq:simplify-one:%s" % ("None" if out is None else ("tuple" if isinstance(out, tuple) else "text")), 0) + 1
+    in_lines = U.lines_of(gs["text"])
+    try:
+        out_tls = [[U.TextLine(l) for l in U.lines_of(c)] for c in cases_text]
+    except U.OutsideClass:
+        findings.append(Finding("monitor", "simplify/unreadable-output", "simplify returned text the interpreter cannot read: %r" % (out,), case))
+        return
+    in_tls = [X.XTextLine(l) for l in in_lines]
+    exact = exact_regime(gs["kinds"], gs["text"], cases_text)
+    ctx = X.Ctx(names)
+    in_sparse = [X.translate_x(l, ctx) for l in in_lines]
+    out_items = None
+    try:
+        sp = [[X.translate_x(l, ctx) for l in U.lines_of(c)] for c in cases_text]
+        N = ctx.N
+        out_items = [[X.plain_line(X.densify(it, N)) for it in c] for c in sp]
+        if any(it is None for c in out_items for it in c):
+            out_items = None
+    except U.OutsideClass:
+        pass
+    N = ctx.N
+    in_items = [X.densify(it, N) for it in in_sparse]
+    in_cases = X.expand_x(in_items, N)
+    items_all = [ln for c in in_cases for ln in c] + [it for c in (out_items or []) for it in c]
+    pts = U.corner_points(n) + U.random_points(n, rng, 20) + U.boundary_points(items_all, n, rng)
+    bad = None
+    for pt in pts:
+        env = env_of(names, pt)
+        if not exact and (any(t.margin(env) < MARGIN for c in out_tls for t in c) or (N == n and min([U.item_margin(it, pt) for it in items_all] or [Fr(1)]) < MARGIN)):
+            continue
+        if U.sat_cases(out_tls, env) and not U.sat_system(in_tls, env):
+            bad = pt; break
+    if bad is None and exact and out_items is not None:
+        pt, done = U.lp_in_A_not_B(out_items, in_cases, N, 0)
+        if pt is not None:
+            env = env_of(names, pt)
+            if U.sat_cases(out_tls, env) and not U.sat_system(in_tls, env):
+                bad = pt[:n]
+        hist["seq:simplify-one:complete-search"] = hist.get("seq:simplify-one:complete-search", 0) + 1
+    if flat_collision(gs.get("raw_text", gs["text"])):
+        hist["seq:known-class:" + KF_FLAT] = hist.get("seq:known-class:" + KF_FLAT, 0) + 1
+        if bad is not None:
+            findings.append(Finding("monitor", KF_FLAT, "the returned case holds but the input does not at %s=%s" % (names, pt_json(bad)), dict(case, point=pt_json(bad))))
+        return
+    if bad is not None:
+        findings.append(Finding("monitor", "one-case-outside-input/%s/%s" % (gs["kind"], "exact" if exact else "toleranced"),
+                                "the returned case holds but the input does not at %s=%s" % (names, pt_json(bad)), dict(case, point=pt_json(bad))))
+    for peer in peers:       # an all=True call on the same text with the same other keywords
+        want = peer["rec"]["out"]
+        if isinstance(out, tuple):
+            continue
+        if (out is None and want and not peer["rec"]["raw_none"]) or (out is not None and not one_of_cases(out, want, names, rng)):
+            findings.append(Finding("monitor", "simplify/all-false/not-one-of-the-cases",
+                                    "simplify without all=True returned %r, which is none of the cases %r returned by call %d (all=True, same text)" % (out, peer["rec"]["out"], peer["j"]),
+                                    dict(case, single=out)))
+            break
+
+
+def post_seq(rec, replies, rng, hist, findings):
+    g = rec["gen"]; fam = rec["family"]
+    hist["seq:family:" + fam] = hist.get("seq:family:" + fam, 0) + 1
+    steps = g.get("steps", [])
+    nontrivial = False
+    prev_all = None
+    for sub in rec["subs"]:
+        j = sub["j"]
+        reps = replies[sub["off"]: sub["off"] + len(sub["lines"])]
+        before = len(findings)
+        what = sub["what"]
+        hk = "seq:%s:step%d:%s" % (fam, min(j, 3), what if what != "raises" else "raises:" + sub["exc"])
+        hist[hk] = hist.get(hk, 0) + 1
+        if what == "raises":
+            continue
+        sj = sub.get("sj", j)
+        if sub["fn"] == "simplify":
+            st = steps[sj]
+            a = "true" if st["kw"].get("all") else ("false" if "all" in st["kw"] else "absent")
+            if sj:
+                same = [i for i in range(sj) if steps[i]["lines"] == st["lines"] and steps[i]["fn"] == "simplify"]
+                if same:
+                    p = steps[same[-1]]
+                    pa = "true" if p["kw"].get("all") else ("false" if "all" in p["kw"] else "absent")
+                    hist["seq:same-text:all:%s->%s" % (pa, a)] = hist.get("seq:same-text:all:%s->%s" % (pa, a), 0) + 1
+                    for d in S3.kw_diff(p, st):
+                        hist["seq:same-text:changed:" + d] = hist.get("seq:same-text:changed:" + d, 0) + 1
+                else:
+                    hist["seq:new-text:" + st["rel"]] = hist.get("seq:new-text:" + st["rel"], 0) + 1
+        if what == "simplify-all":
+            nt = post_simplifyx(sub["rec"], reps, rng, hist, findings)
+            if j and len(sub["rec"]["out"]) >= 2:
+                nontrivial = True
+                hist["seq:later-call-with-sign-cases"] = hist.get("seq:later-call-with-sign-cases", 0) + 1
+        elif what == "simplify-one":
+            peers = [o for o in rec["subs"] if o["what"] == "simplify-all" and steps[o["sj"]]["lines"] == steps[sj]["lines"]
+                     and set(S3.kw_diff(steps[o["sj"]], steps[sj])) <= {"all", "rand", "verbose"}
+                     and not (opposite_pairs(steps[sj]["etext"]) or abs_condition_pairs(steps[sj]["etext"]) or flat_collision(steps[sj]["text"])) and o["rec"].get("out_tls") is not None
+                     and empty_lines(o["rec"]["out"]) == 0]
+            post_single(sub, g, rng, hist, findings, peers)
+        elif what == "solve":
+            post_solvex(sub["rec"], reps, rng, hist, findings)
+            nontrivial = nontrivial or j > 0
+        elif what == "matrix":
+            post_matrix(sub["rec"], reps, rng, hist, findings)
+            nontrivial = nontrivial or j > 0
+        elif what == "bounds":
+            post_bounds(sub["rec"], reps, rng, hist, findings)
+            nontrivial = nontrivial or j > 0
+        # ---- the top level of simplify against the model
+        if sub["fn"] == "simplify":
+            case = {"stream": "seq", "call": sub["call"], "returned": sub["out"]}
+            if not sub["forwarded"]:
+                findings.append(Finding("correspondence", "simplify-top/keywords-not-forwarded",
+                                        "_simplify was not called with the caller's keywords plus variables= and target=", case))
+            if "top_idx" in sub:
+                rep = reps[sub["top_idx"]]
+                ok = rep == sub["top_want"] or (sub["out"] == "" and rep == "ok kind=empty cases=()")
+                hist["seq:top:%s" % ("agrees" if ok else "diverges")] = hist.get("seq:top:%s" % ("agrees" if ok else "diverges"), 0) + 1
+                hist["seq:top:_simplify-calls=%d" % min(sub["nparts"], 5)] = hist.get("seq:top:_simplify-calls=%d" % min(sub["nparts"], 5), 0) + 1
+                if not ok:
+                    findings.append(Finding("correspondence", "simplify-top/model-diverges",
+                                            "simplify returned %r; the model of its top level on the values absval / _simplify returned in this call: %s (expected %s); "
+                                            "_simplify was called %d time(s)" % (sub["out"], rep, sub["top_want"], sub["nparts"]),
+                                            dict(case, request=sub["lines"][sub["top_idx"]], reply=rep)))
+            else:
+                hist["seq:top:not-comparable"] = hist.get("seq:top:not-comparable", 0) + 1
+        # ---- findings of this call carry the sequence
+        for f in findings[before:]:
+            if f["class_key"] not in _known_keys():
+                f["class_key"] = "seq/%s/%s" % (sub["rel"], f["class_key"])
+            f["case"]["stream"] = "seq"; f["case"]["id"] = rec["id"]; f["case"]["family"] = fam; f["case"]["step"] = j
+            f["case"]["sequence"] = sub["calls"]
+            f["what"] = "call %d of the sequence %r: %s" % (j + 1, sub["calls"], f["what"])
+    return nontrivial
 
 
 # ------------------------------------------------------------------ stream: merge / _flip (literal models)
@@ -1726,13 +2286,13 @@ def core_cases():
 # ------------------------------------------------------------------ shard
 STREAMS = {"simplify": (prep_simplify, post_simplify), "solve": (prep_solve, post_solve), "matrix": (prep_matrix, post_matrix),
            "bounds": (prep_bounds, post_bounds), "merge": (prep_merge, post_merge),
-           "simplifyx": (prep_simplifyx, post_simplifyx), "solvex": (prep_solvex, post_solvex)}
+           "simplifyx": (prep_simplifyx, post_simplifyx), "solvex": (prep_solvex, post_solvex), "seq": (prep_seq, post_seq)}
 
 
 def plan(ncases):
     return [("simplify", ncases), ("solve", max(1, ncases // 3)), ("matrix", max(1, ncases // 3)),
             ("bounds", max(1, ncases // 3)), ("merge", max(1, ncases // 2)),
-            ("simplifyx", max(1, ncases // 2)), ("solvex", max(1, ncases // 4))]
+            ("simplifyx", max(1, ncases // 2)), ("solvex", max(1, ncases // 4)), ("seq", max(1, ncases // 5))]
 
 
 def run_cases(ids, hist, findings):
@@ -1780,7 +2340,8 @@ def run_shard(pid, seed, shard, ncases, tier, extra):
 WITNESSES = [("-1000000000000000000000001*x0 - 13 + 1000000000000000000000007*x0 > -1\nx1 > 0", KF_CANCEL),
              ("-1000000000000000000000 + 25*x0 < -1000000000000000000000\nx1 > 0", KF_CANCEL),
              ("x0 >= 1\nx0 <= 1\nx1 > 0", KF_OPPOSITE), ("x0 > 1\nx0 < 1\nx1 > 0", KF_OPPOSITE), ("x0 >= 1\nx0 < 1\nx1 > 0", KF_OPPOSITE),
-             ("(-5)/x0 = 0\nx1 > 0", KF_EMPTY), ("(-12.0)/(6.0*x0) = 1500000000000000.0\nx1 > 0", KF_EMPTY)]
+             ("(-5)/x0 = 0\nx1 > 0", KF_EMPTY), ("(-12.0)/(6.0*x0) = 1500000000000000.0\nx1 > 0", KF_EMPTY),
+             ("(-2)/((-2)*x0) >= 3\nx1 > 0", KF_FLAT), ("(2.5) + 4/((2.5)*x0 - 1) < 3\nx1 > 0", KF_FLAT)]
 
 
 def witnesses():
@@ -1861,7 +2422,20 @@ RULE = ("cases: simplify(all=True) on 1-4 (5 with an added pair) lines over 1-5 
         "under-determined, inconsistent (outside the property: classes counted only), tautological systems, 11-13 named variables. "
         "core tables, exhaustively on shard 0: comparator on every single comparator text / ordered pair / none, equals on "
         "{True, False, ZeroDivisionError}^2 x error flag x comparator, flip(bounds=True), merge (both tables) on every list of <= 2 lines "
-        "over two texts and of 3 lines over one text. non-trivial (simplifyx) = >= 2 cases, or a chained / many-variable system.")
+        "over two texts and of 3 lines over one text. non-trivial (simplifyx) = >= 2 cases, or a chained / many-variable system. "
+        "THIRD LAYER (stream seq, Lean simplifyTop): programs of 2-4 calls in ONE process, every call checked against ITS OWN input: "
+        "the same text with other keywords in every order (all absent / False / True - in particular not-True first, True later -, "
+        "cycle, target as permutation / single name, variables as base name / list / list with unused names, rand=, verbose=, the text "
+        "laid out plainly / indented / with trailing blanks); variants of the text in turn (one comparator changed, one literal negated, "
+        "a line dropped / added / replaced, lines reversed, variables renamed, back to the first text); the SAME list / dict objects "
+        "passed as variables= / target= / locals= to every call; a constant given through locals= with another value or sign in the "
+        "next call; consistent systems of equalities through solve and simplify in turn with other targets / right-hand sides / one "
+        "coefficient changed; linear_symbolic / symbolic_bounds repeated with one number, the argument form or variables= changed. "
+        "A call without all=True must return ONE case that lies inside its input (sample points, then complete exact LP search) and is "
+        "one of the cases of an all=True call on the same text. Per simplify call the values absval / _simplify returned in THAT call "
+        "(recorded through the module-level names) go to the Lean model of simplify's top level, whose answer must be what simplify "
+        "returned; the keywords _simplify receives must be the caller's. non-trivial (seq) = a call after the first that returned >= 2 "
+        "sign cases with all=True, or a later solve / linear_symbolic / symbolic_bounds call.")
 
 
 def main(tier, seed):
@@ -1885,6 +2459,9 @@ def main(tier, seed):
           "comparison, exhaustively over the finite tables",
           "validateX (Model/Symbolic2.lean): absolute values and product divisors; for a product divisor the theorem is about points of the "
           "extended space in which the extra variable equals the monomial it stands for, which every real point extends to uniquely",
+          "simplifyTop (Model/SymbolicTop.lean): the top level of simplify (absval cases -> one _simplify per case with the caller's "
+          "keywords -> flatten -> select) as a function of the values of THIS call; tied to the code by recording absval / _simplify / "
+          "random.randint through the module-level names on every simplify call of the seq stream",
           "sympy and the string surgery inside simplify/solve are NOT modelled: their output is validated per run, nothing is proved about them"]
     assumptions = ["theorems are about real-closed-free ordered-field semantics; binary64 rounding of the evaluation of a constraint is outside the property",
                    "general float coefficients make sympy print 15-digit roundings: those cases are only checked away from the boundaries (toleranced stream)",
